@@ -610,4 +610,23 @@ theorem R_keys {crc : Bytes → Nat} {w : World} {s : Spec} (hR : R crc w s) (k 
       | none => simp [hl] at h
       | some i => exact ⟨(k, i), mem_entries_of_lookup hl, rfl⟩
 
+/-! ## decidability of the well-formedness predicates (for the non-vacuity examples) -/
+
+instance (fs : Files) : Decidable (FilesWF fs) := by unfold FilesWF Distinct; infer_instance
+instance (ds : Dirs) : Decidable (DirsWF ds) := by unfold DirsWF Distinct; infer_instance
+instance (t : Tree) : Decidable (TreeWF t) := by unfold TreeWF Distinct; infer_instance
+
+/-- frame: a write leaves every other valid entry readable with the same contents -/
+theorem writeInfo_frame (crc : Bytes → Nat) (single : Bool) (lim : Option Nat) (a : List (Nat × Bytes)) (f : Bytes)
+    (i : Info) (data : Bytes) (idx : Option Nat) (hidx : idxOK idx = true) (hn : infoNorm i = true)
+    (hv : InfoValid a f i) (wr : Written) (h : writeInfo crc single lim a f i data idx = .ok wr)
+    (i' : Info) (hv' : InfoValid a f i') :
+    InfoValid wr.archs wr.footer i' ∧ readInfo wr.archs wr.footer i' = readInfo a f i' := by
+  obtain ⟨wr', hwr, _, _, _, _, hext, x, hfoot⟩ := writeInfo_facts crc single lim a f i data idx hidx hn hv
+  rw [h] at hwr
+  injection hwr with hwr
+  subst hwr
+  rw [hfoot]
+  exact valid_mono x hv' hext
+
 end C13
